@@ -151,7 +151,7 @@ def plans_of(spec):
         ix['D2'] = p.op_simple('D', 2)
         ix['F0'] = p.op_simple('F', 0); ix['F1'] = p.op_simple('F', 1); ix['F2'] = p.op_simple('F', 2)
     ix['L'] = p.op_simple('L')
-    return [('io', 'plain', p, ix)]
+    return [('io', spec.get('_variant', 'plain'), p, ix)]
 
 
 def _dump_rows(o):
@@ -395,3 +395,10 @@ def shrinks(spec, viol):
     if spec['nthreads'] > 1:
         s = copy.deepcopy(spec); s['nthreads'] = 1
         yield s
+
+
+def harden(spec):
+    """the same job on the ASan+UBSan build (used by the gate for erratic candidates)"""
+    s = copy.deepcopy(spec)
+    s['_variant'] = 'asan'
+    return s
